@@ -14,15 +14,15 @@ REQUIRED_COUNTERS = ["fix_runs", "converged_checked"]
 ASSUMPTIONS = [
     "documents on which fix itself ends in an error (tokenization, plugin error, fix conflict) are C01/C07/C15 matters and skipped (counted)",
 ]
-LIMIT = {"Z1": 15291, "Z3": 16000, "Z4": 8000}
+LIMIT = {"Z1": 15291, "Z3": 12000, "Z4": 6000, "Z7": 30000}
 
 
 def universe_hash():
-    return U.content_hash()
+    return PL.hash_ab()
 
 
 def plan(tier, seed, complete=False):
-    items, zinfo = PL.plan_docs(tier, seed, complete, quick={"Z1": 1500, "Z3": 1000, "Z4": 500}, z1_all=False, limit=LIMIT, zones=("Z1", "Z3", "Z4"))
+    items, zinfo = PL.plan_docs(tier, seed, complete, quick={"Z1": 1200, "Z3": 700, "Z4": 400, "Z7": 1200}, z1_all=False, limit=LIMIT, zones=("Z1", "Z3", "Z4", "Z7"), force_b=True)
     return {
         "items": items, "zones": zinfo, "exhaustive": False,
         "rule": "documents of the frozen universes x {default rules, one fix-capable rule alone, one pair of fix-capable rules} (rule choice is a function of the "
